@@ -117,6 +117,14 @@ Theorem C12_fuel_from_order : forall d order,
 Proof. exact fuel_from_order. Qed.
 Print Assumptions C12_fuel_from_order.
 
+(* The same for type systems: the fuel bound inside wf_tsb (the walk of the no-clash condition) follows from the toposort
+   contract on the WRITTEN descriptor: wf_ts_laxb = wf_tsb with the no-clash condition asked only where the walk
+   terminates.  So C12_descr_roundtrip and C12_write_read_write hold with the premise wf_ts_laxb s. *)
+Theorem C12_ts_fuel_from_order : forall s order,
+  wf_ts_laxb s = true -> order_okb order (descr_of_ts s) = true -> wf_tsb s = true.
+Proof. exact ts_fuel_from_order. Qed.
+Print Assumptions C12_ts_fuel_from_order.
+
 (* The reader on ANY descriptor with distinct names, under the toposort contract, is the declarative reading. *)
 Theorem C12_load_is_reading_all : forall order d,
   uniq_descrb d = true -> order_okb order d = true -> ts_of_descr order d = read_spec order d.
@@ -189,6 +197,11 @@ Theorem C12_builtin_multi_flag_old_refuted :
 Proof. exact builtin_multi_flag_old_refuted. Qed.
 Print Assumptions C12_builtin_multi_flag_old_refuted.
 
+(* What stays outside the statements above (modelling limits, no `_partial` theorem is left): str.strip() is modelled for
+   ASCII white space; a descriptor that repeats a type name (the code keeps the last declaration with the features of both)
+   is excluded by uniq_descrb / wf_descrb; the byte layer (lxml) is below the abstract descriptors, byte equality of
+   re-emission is checked on the implementation by the oracle of harness/props/C12.py. *)
+
 (* ------------------------------------------------------------------ non-vacuity *)
 (* a type system with a tree below a no-namespace type, mutually recursive ranges, an element type, the three values of
    the flag, features self / type / self_, padded and blank descriptions, an extended DocumentAnnotation *)
@@ -251,8 +264,8 @@ Example C12_redefinition_rejected :
   ts_of_descr ["a.A"; "a.B"; DOCANN] (ex_redef "uima.cas.String") = Err EValue /\
   ts_of_descr [DOCANN; "a.A"; "a.B"] (rev (ex_redef "uima.cas.String")) = Err EValue.
 Proof. repeat split; vm_compute; reflexivity. Qed.
-Example C12_lax_premise : wf_descr_laxb ex_descr = true.
-Proof. vm_compute. reflexivity. Qed.
+Example C12_lax_premise : wf_descr_laxb ex_descr = true /\ wf_ts_laxb ex_ts = true.
+Proof. split; vm_compute; reflexivity. Qed.
 
 (* the embedding on the example: the loaded content is a well-formed content listed parents first, and read back it is itself *)
 Example C12_embedding_example :
